@@ -3,6 +3,7 @@
 -/
 import GoNeat.Driver.Json
 import GoNeat.Model.FastSolver
+import GoNeat.Model.SolverDepth
 import GoNeat.Model.ActExact
 import GoNeat.Spec.Solver
 import GoNeat.Proofs.FastFFAll
@@ -46,6 +47,13 @@ def stdOp (o : ScriptOp) : E (Solver.Op Float) :=
   | "relax" => pure .relax
   | "flush" => pure .flush
   | k => throw s!"unknown std op {k}"
+
+/-- a call of a standard-network history: the `Solver` calls plus the depth query `depth` (n = cap; 0 =
+    `MaxActivationDepth()`, which is `MaxActivationDepthWithCap(0)` for a network without control nodes) -/
+def stdOpD (o : ScriptOp) : E (SolverD.OpD Float) :=
+  match o.k with
+  | "depth" => pure (.depth o.n)
+  | _ => do return .call (← stdOp o)
 
 def fastOp (o : ScriptOp) : E (Fast.Op Float) :=
   match o.k with
@@ -91,6 +99,21 @@ def stdScript (net : Net Float) : List (Solver.Op Float) → St Float → List J
     let r := Solver.step net sigmaExact s op
     jStdStep net r :: stdScript net ops r.1
 
+/-- the same for histories with depth queries: a depth step dumps the answer and the complete state (the `visited`
+    marks the query left behind included) -/
+def stdScriptD (net : Net Float) : List (SolverD.OpD Float) → St Float → List Json
+  | [], _ => []
+  | .call op :: ops, s =>
+    let r := Solver.step net sigmaExact s op
+    jStdStep net r :: stdScriptD net ops r.1
+  | .depth cap :: ops, s =>
+    let r := SolverD.stepD net sigmaExact s (.depth cap)
+    let ans := match r.2.depth with
+      | some (d, e) => jObj [("d", jI d), ("e", jS e.str)]
+      | none => Json.null
+    jObj [("res", jB r.2.res), ("err", Json.null), ("outs", jArr jF r.2.outs), ("state", jArr jNState r.1),
+          ("depth", ans)] :: stdScriptD net ops r.1
+
 def fastScript (fn : Fast.FastNet Float) : List (Fast.Op Float) → Fast.FState Float → List Json
   | [], _ => []
   | op :: ops, s =>
@@ -100,7 +123,7 @@ def fastScript (fn : Fast.FastNet Float) : List (Fast.Op Float) → Fast.FState 
 /-- (res, err, outs) part of a dumped step -/
 def obsPart (j : Json) : Json :=
   jObj [("res", (fldOpt j "res").getD Json.null), ("err", (fldOpt j "err").getD Json.null),
-        ("outs", (fldOpt j "outs").getD Json.null)]
+        ("outs", (fldOpt j "outs").getD Json.null), ("depth", (fldOpt j "depth").getD Json.null)]
 
 def firstDiff (tag : String) : List Json → List Json → Option String
   | [], [] => none
@@ -131,7 +154,7 @@ def hFlushRun : Handler := fun j => do
     if solver == "std" then do
       let s0 : St Float := Solver.init net
       let initJ := jObj [("res", jB false), ("err", Json.null), ("outs", jArr jF (readOutputs net s0)), ("state", jArr jNState s0)]
-      pure (some initJ, stdScript net (← script.mapM stdOp) s0, stdScript net (← seq.mapM stdOp) s0, (none : Option String))
+      pure (some initJ, stdScriptD net (← script.mapM stdOpD) s0, stdScriptD net (← seq.mapM stdOpD) s0, (none : Option String))
     else
       match Fast.ofNet net with
       | .error e =>
